@@ -15,7 +15,10 @@ at the end), each call judged against the model's analysis of every file alone. 
 names files by every extension / whole name Pygments maps to their language and holds byte-identical headers under every
 contested name (x.h ...) above, beside and below C and C++ sources (a failure is shrunk to a few files and replayable);
 cache_histories: `codelimit scan`, then files rewritten with a kept / back-dated mtime, touched, renamed with the same
-bytes, then scans with the cache in place and without: every entry must be the analysis of the file as it is now."""
+bytes, then scans with the cache in place and without: every entry must be the analysis of the file as it is now.
+Round 6: name collisions (every sampled file analysed directly after files that declare its function names as macros /
+typedefs / functions of other languages); the macro headers of the twins in the tree stream; a size ladder in the cache
+histories (functions behind N bytes of generated data rewritten between two scans, N from a geometric ladder + srcdict rungs)."""
 import json
 import os
 import shutil
@@ -88,6 +91,10 @@ def tree_files(ctx, fs):
             continue
         for d in ("", "twins", os.path.join("d0", "inc"), os.path.join("zz", "inc")):
             placed[os.path.join(d, "shared" + ext)] = (lang, hdr.encode())
+    # the header a project keeps such a macro in: walked before some of its users and after others
+    macro_hdr = "#ifndef LIST_H\n#define LIST_H\n#define list_for_each(p) for (p = 0; p < 3; p++)\n#define sum(n) (n)\n#endif\n"
+    placed[os.path.join("twins", "list.h")] = ("C", macro_hdr.encode())
+    placed[os.path.join("d1", "inc", "list.hpp")] = ("C++", macro_hdr.encode())
     placed["main.cpp"] = ("C++", twin.encode())
     placed[os.path.join("zz", "app.cc")] = ("C++", twin.encode())
     placed[os.path.join("zz", "crc.c")] = ("C", twin.encode())
@@ -355,17 +362,119 @@ def run_cache_history(case, hashseed=1):
     return bad
 
 
+SIZE_LANGS = [("data.c", "C"), ("table.py", "Python"), ("bundle.js", "JavaScript")]
+
+
+def sized_source(name, prefix, lengths):
+    """a source file whose first `prefix` bytes are generated data (one comment block - amalgamations, embedded resources,
+    licence texts) followed by functions u0, u1, ... of exactly the given lengths: the functions start at byte offset `prefix`"""
+    if name.endswith(".py"):
+        line = "# " + "0x3f, " * 12 + "\n"
+        body = line * (prefix // len(line))
+        body += "#" + "." * max(0, prefix - len(body) - 2) + "\n" if prefix - len(body) >= 2 else "\n" * (prefix - len(body))
+        tail = "\n".join(sel.py_function("u%d" % i, n) for i, n in enumerate(lengths))
+    else:
+        line = " * " + "0x3f, " * 12 + "\n"
+        inner = max(0, prefix - 6)
+        body = "/*\n" + line * (inner // len(line))
+        body += "." * (prefix - len(body) - 3) + "*/\n"
+        head = "function u%d(a)" if name.endswith(".js") else "int u%d(int a)"
+        tail = "\n".join(sel.brace_function(head % i, n) for i, n in enumerate(lengths))
+    assert len(body) == prefix, (name, prefix, len(body))
+    return (body + tail).encode()
+
+
+def gen_size_history(rnd, k, prefix):
+    name, _lang = SIZE_LANGS[k % len(SIZE_LANGS)]
+    before = [rnd.choice([3, 6, 12]), rnd.choice([5, 29, 30])]
+    after = list(before)
+    after[rnd.randrange(2)] = rnd.choice([31, 46, 61, 75])          # the edit lies BEHIND the generated data
+    return {"stream": "cache-size-history", "name": "src/" + name, "prefix_bytes": prefix, "before": before, "after": after,
+            "mtime": rnd.choice([None, "keep", 7200])}
+
+
+def run_size_history(case, hashseed=1):
+    """`codelimit scan`, the functions behind the first `prefix_bytes` bytes rewritten, scan again with the cache in place,
+    scan without cache -> violated clauses. Judged by construction (function lengths), no model run on the big file."""
+    import hashlib
+    import time
+    root = tempfile.mkdtemp(prefix="c06s_")
+    bad = []
+    rel = case["name"]
+    try:
+        os.makedirs(os.path.join(root, "src"))
+        p = os.path.join(root, rel)
+        with open(os.path.join(root, "src", "small.c"), "w") as f:
+            f.write("int small(int a) {\n  return a;\n}\n")
+
+        def units(d):
+            e = d["codebase"]["files"].get(rel)
+            return None if e is None else [[m["unit_name"], m["value"]] for m in e["measurements"]]
+        with open(p, "wb") as f:
+            f.write(sized_source(rel, case["prefix_bytes"], case["before"]))
+        d1, err = cli_scan(root, hashseed, 0)
+        if err:
+            return ["first scan: " + err]
+        want1 = [["u%d" % i, n] for i, n in enumerate(case["before"])]
+        if units(d1) != want1:
+            bad.append("first scan: functions of %s %s, required %s" % (rel, units(d1), want1))
+        old = os.stat(p).st_mtime
+        data = sized_source(rel, case["prefix_bytes"], case["after"])
+        with open(p, "wb") as f:
+            f.write(data)
+        if case.get("mtime") == "keep":
+            os.utime(p, (old, old))
+        elif case.get("mtime"):
+            os.utime(p, (time.time() - case["mtime"], time.time() - case["mtime"]))
+        d2, err = cli_scan(root, hashseed, 0, keep_cache=True)
+        if err:
+            return bad + ["second scan (cache of the first in place): " + err]
+        want2 = [["u%d" % i, n] for i, n in enumerate(case["after"])]
+        if units(d2) != want2:
+            bad.append("second scan (cache of the first in place): functions of %s (%d bytes, rewritten from byte %d on) %s, required %s" % (rel, len(data), case["prefix_bytes"], units(d2), want2))
+        e = d2["codebase"]["files"].get(rel) or {}
+        if e.get("checksum") != hashlib.md5(data).hexdigest():
+            bad.append("second scan (cache of the first in place): checksum of %s is not that of its %d bytes" % (rel, len(data)))
+        d4, err = cli_scan(root, hashseed, 0)
+        if err:
+            bad.append("scan without cache: " + err)
+        elif canon_report(d4) != canon_report(d2):
+            bad.append("the scan with the cache in place differs from a scan of the same tree without any cache (functions of %s: %s / %s)" % (rel, units(d2), units(d4)))
+    except Exception as e:  # noqa: BLE001
+        bad.append("raised %s: %s" % (type(e).__name__, e))
+    finally:
+        shutil.rmtree(root, ignore_errors=True)
+    return bad
+
+
+def size_rungs(ctx):
+    """offsets of the rewritten region = sizes of the generated data in front of it: a geometric ladder plus n-1, n, n+1, 2n
+    for every integer literal of the CURRENT source tree that is not in the pinned one (block sizes, limits)"""
+    from gen import srcdict
+    base = ctx.pick([10 ** 3, 10 ** 5], [10 ** 2, 10 ** 3, 10 ** 4, 10 ** 5, 10 ** 6, 10 ** 7])
+    novel = srcdict.novel_rungs(64, ctx.pick(4 * 2 ** 20, 32 * 2 ** 20))
+    if len(novel) > ctx.pick(12, 60):
+        novel = novel[-ctx.pick(12, 60):]
+    return sorted(set(base + novel)), len(novel)
+
+
 def cache_histories(ctx, fs):
     from concurrent.futures import ThreadPoolExecutor
     placed, _o, _g = tree_files(ctx, fs)
     rnd = ctx.rng("cache-history")
     cases = [gen_cache_history(rnd, placed) for _ in range(ctx.pick(2, 24))]
+    rungs, n_novel = size_rungs(ctx)
+    sized = [gen_size_history(rnd, k, n) for k, n in enumerate(rungs)]
     with ThreadPoolExecutor(max_workers=8) as ex:
         res = list(ex.map(run_cache_history, cases))
+        sres = list(ex.map(run_size_history, sized))
     fails = [{"input": c, "observed": bad[:4], "required": "the result of a scan depends on the content of the tree only, not on earlier scans (cache) or modification times"}
              for c, bad in zip(cases, res) if bad]
+    fails += [{"input": c, "observed": bad[:4], "required": "the result of a scan depends on the content of the tree only (the functions behind the generated data as they are now), not on earlier scans (cache), sizes or modification times"}
+              for c, bad in zip(sized, sres) if bad]
     fails.sort(key=lambda f: len(json.dumps(f["input"])))
-    stats = {"histories": len(cases), "scans": 4 * len(cases), "steps": {}}
+    stats = {"histories": len(cases) + len(sized), "scans": 4 * len(cases) + 3 * len(sized), "steps": {},
+             "size_ladder_offsets_of_the_rewritten_region": rungs, "size_rungs_from_novel_source_integers": n_novel}
     for c in cases:
         for st in c["steps"]:
             k = st[0] + ("+old-mtime" if st[0] == "write" and len(st) > 3 else "")
@@ -407,6 +516,54 @@ def marker_files(ctx):
                 code = "int keep(int a) {\n  return a;\n}\nint f(int a) {  %s\n  a = a + 1;\n  return a;\n}\n" % c
             out.append((lang, code))
     return out
+
+
+# ------------------------------------------------------------------ name collisions: a file analysed right after files that
+# DECLARE its function names in every other form (function-like / object-like macro, typedef, function or class of another
+# language, variable) - whatever the process keeps per identifier (macro tables, symbol caches, "seen" sets) shows
+
+IDENT = __import__("re").compile(r"^[A-Za-z_][A-Za-z0-9_]*$")
+
+
+def collision_predecessors(names, k):
+    """(language, code) of predecessor k for the function names `names`: the names are declared, not used as headers the
+    way the follower uses them; every predecessor is a legal file whose own result is compared with the model's too"""
+    form = k % 4
+    if form == 0:       # a C header with function-like macros
+        return ("C", "#ifndef COLLIDE_H\n#define COLLIDE_H\n" + "".join("#define %s(a, b) ((a) + (b))\n" % n for n in names) + "#endif\n")
+    if form == 1:       # a C++ header: block-like macros, object-like macros, typedefs
+        return ("C++", "#pragma once\n" + "".join("#define %s(it) for (int it = 0; it < 3; it++)\n#define %s_MAX 3\n" % (n, n) for n in names)
+                + "".join("typedef int %s_t;\n" % n for n in names))
+    if form == 2:       # Python: the names as functions, classes and variables
+        return ("Python", "".join("%s = None\n\n\ndef %s(a, b):\n    return a\n\n\n" % (n, n) for n in names))
+    return ("JavaScript", "".join("function %s(a) {\n  return a;\n}\nconst %s_ = %s;\n" % (n, n, n) for n in names))
+
+
+def collision_files(ctx, fs, model):
+    """for a sample of files with at least one function: predecessors declaring these function names -> (extra files,
+    order: predecessor(s) directly in front of their follower), indices relative to len(fs)"""
+    rnd = ctx.rng("collisions")
+    cands = []
+    for i, m in enumerate(model):
+        dm = sr.decode_scan(m) if m.startswith("ok") else None
+        names = sorted({u[0] for u in (dm[0] if dm else [])} if dm else [])
+        names = [n for n in names if IDENT.match(n)][:6]
+        if names and len(fs[i][1]) < 6000:
+            cands.append((i, names))
+    by_lang = {}
+    for i, names in cands:
+        by_lang.setdefault(fs[i][0], []).append((i, names))
+    picked = []
+    per = ctx.pick(3, 20)
+    for lang in sorted(by_lang):
+        picked += rnd.sample(by_lang[lang], min(per, len(by_lang[lang])))
+    extra, order = [], []
+    for k, (i, names) in enumerate(picked):
+        for form in ({k % 4, 0} if k % 3 else {k % 4}):
+            extra.append(collision_predecessors(names, form))
+            order.append(len(fs) + len(extra) - 1)
+        order.append(i)
+    return extra, order, len(picked)
 
 
 def marker_seeds(ctx):
@@ -627,12 +784,21 @@ def correspond(ctx):
     mseeds = marker_seeds(ctx)
     mjobs = [(s, mk_order if k % 2 == 0 else list(reversed(mk_order))) for k, s in enumerate(mseeds)]
 
+    # name collisions: predecessors that declare the follower's function names, directly in front of it, one interpreter per hash seed
+    cextra, corder, n_coll = collision_files(ctx, fs[:n_main], model)
+    base = len(fs)
+    for i, m in enumerate(sr.model_scan_many([sr.scan_request(l, c) for (l, c) in cextra], shards=1 if len(cextra) < 20 else 16)):
+        ref[base + i] = m
+    corder = [j if j < n_main else base + (j - n_main) for j in corder]
+    fs = fs + cextra
+    cjobs = [(s, corder) for s in ctx.pick([0, 4242], [0, 1, 2, 3, 4242])] if corder else []
+
     def one(job):
         s, o = job
         res, err = run_worker([fs[i] for i in o], s)
         return (s, o, res, err)
     with ThreadPoolExecutor(max_workers=16) as ex:
-        results = list(ex.map(one, jobs + mjobs))
+        results = list(ex.map(one, jobs + mjobs + cjobs))
     dis, fails = [], []
     evals = 0
     nontrivial = set()
@@ -662,10 +828,10 @@ def correspond(ctx):
     evals += hstats["scans"]
     return {
         "evaluations": evals + 2, "distinct_nontrivial": len(nontrivial),
-        "rule": "%d files (canonical, malformed incl. ones that abort matching midway, corpus) analysed in %d fresh interpreters: PYTHONHASHSEED in %s x file orders (identity, reversed, random permutations); every per-file result compared with the model's single result; plus two subprocess scans of one tree under different hash seeds; non-trivial = distinct (file, hash seed) pairs with at least one function; PLUS %d marker files (per language: comment opener + at most one further punctuation character + `nocl`, on a header line) in %d further interpreters (hash seeds 0..%d and %d drawn from 0..2^32-1) against the model; PLUS check-orders: %d trees with nested .gitignore files, the real check_command called in %d fresh interpreters with the top-level directories as arguments in every order (pairs, single directories, the root, file + directory lists, the first list again at the end of the same process): %d calls, each judged against the model's analysis of every file alone" % (n_main, len(jobs), seeds if len(seeds) < 8 else "0..29,12345,999983", len(mk), len(mjobs), ctx.pick(16, 64) - 1, ctx.pick(4, 16), ostats["trees"], ostats["interpreters"], ostats["check_calls"]) + "; the tree of the two-scans stream names half of its generated files by ANY extension / whole file name Pygments maps to the language (x.h, x.idc, x.hh, x.hpp, x.cc, x.mjs, x.pyi, BUILD.bazel, ...) and holds byte-identical headers under every contested name (x.h, x.hh, x.cp, x.H, x.hpp) above, beside and below C and C++ sources; PLUS cache-history: %d histories `codelimit scan` -> files rewritten with a kept / back-dated modification time (2 h, 400 days), touched, renamed with the same bytes to the sibling language -> scan with the cache in place -> again -> scan without cache: every entry = checksum of the bytes + the model's analysis of the file as it is now, all three later reports equal up to uuid/timestamp/order (%d scans)" % (hstats["histories"], hstats["scans"]),
+        "rule": "%d files (canonical, malformed incl. ones that abort matching midway, corpus) analysed in %d fresh interpreters: PYTHONHASHSEED in %s x file orders (identity, reversed, random permutations); every per-file result compared with the model's single result; plus two subprocess scans of one tree under different hash seeds; non-trivial = distinct (file, hash seed) pairs with at least one function; PLUS %d marker files (per language: comment opener + at most one further punctuation character + `nocl`, on a header line) in %d further interpreters (hash seeds 0..%d and %d drawn from 0..2^32-1) against the model; PLUS check-orders: %d trees with nested .gitignore files, the real check_command called in %d fresh interpreters with the top-level directories as arguments in every order (pairs, single directories, the root, file + directory lists, the first list again at the end of the same process): %d calls, each judged against the model's analysis of every file alone" % (n_main, len(jobs), seeds if len(seeds) < 8 else "0..29,12345,999983", len(mk), len(mjobs), ctx.pick(16, 64) - 1, ctx.pick(4, 16), ostats["trees"], ostats["interpreters"], ostats["check_calls"]) + "; the tree of the two-scans stream names half of its generated files by ANY extension / whole file name Pygments maps to the language (x.h, x.idc, x.hh, x.hpp, x.cc, x.mjs, x.pyi, BUILD.bazel, ...) and holds byte-identical headers under every contested name (x.h, x.hh, x.cp, x.H, x.hpp) above, beside and below C and C++ sources; PLUS cache-history: %d histories `codelimit scan` -> files rewritten with a kept / back-dated modification time (2 h, 400 days), touched, renamed with the same bytes to the sibling language -> scan with the cache in place -> again -> scan without cache: every entry = checksum of the bytes + the model's analysis of the file as it is now, all three later reports equal up to uuid/timestamp/order (%d scans); of these, size-ladder histories: a file whose functions lie behind N bytes of generated data (one comment block; C / Python / JavaScript) is scanned, the functions rewritten (one grows past 30 / 60 lines; mtime kept / back-dated / new), scanned with the cache in place and without, for N in %s (geometric ladder + %d rungs n-1, n, n+1, 2n from integer literals new in the source tree), judged by construction: function lengths as they are now, checksum of the bytes, equal to the scan without cache; PLUS name collisions: %d files, each analysed directly after predecessors that declare its function names in other forms (C header with function-like macros, C++ header with block-like / object-like macros and typedefs, Python functions / variables, JavaScript functions), in %d further interpreters, every result against the model's" % (hstats["histories"], hstats["scans"], hstats["size_ladder_offsets_of_the_rewritten_region"], hstats["size_rungs_from_novel_source_integers"], n_coll, len(cjobs)),
         "samples": [{"hashseed": s, "order": o[:8], "first_result": (res or [""])[0][:60]} for (s, o, res, e) in results[:3]],
         "exhaustive": False, "distribution": {"files": n_main, "interpreters": len(jobs), "hash_seeds": len(seeds), "orders": len(orders),
-                                              "marker_files": len(mk), "marker_hash_seeds": len(mseeds), "check_orders": ostats, "cache_history": hstats},
+                                              "marker_files": len(mk), "marker_hash_seeds": len(mseeds), "name_collision_followers": n_coll, "name_collision_predecessor_files": len(cextra), "check_orders": ostats, "cache_history": hstats},
         "disagreements": dis[:30], "oracle_failures": fails[:30],
     }
 
@@ -684,6 +850,12 @@ def replay(payload):
         for f in fails:
             print("observed: %s\nviolated: %s" % (f["observed"], f["required"]))
         return not fails
+    if inp.get("stream") == "cache-size-history":
+        bad = run_size_history(inp)
+        print("codelimit scan, then %s rewritten from byte %d on (functions %s -> %s, mtime: %s), then codelimit scan again (cache in place)" % (
+            inp["name"], inp["prefix_bytes"], inp["before"], inp["after"], inp.get("mtime")))
+        print("violated: %s" % (bad or "nothing"))
+        return not bad
     if inp.get("stream") == "cache-history":
         bad = run_cache_history(inp)
         print("codelimit scan, then %s, then codelimit scan again (cache in place)" % [st[:2] + st[3:] if st[0] == "write" else st for st in inp["steps"]])
